@@ -56,6 +56,14 @@ def cached(suite, tier, seed, fn):
         lock.close()
 
 
+def stamp(suite, fn, tasks, rs):
+    """record in every finding's replay the case that produced it (suite, worker function, task
+    tuple), so that `./check <Cxx> --replay <file>` can run exactly that case again"""
+    for t, r in zip(tasks, rs):
+        for f in r.get("findings", []) or []:
+            f.setdefault("replay", {})["case"] = dict(suite=suite, fn=fn, task=list(t))
+
+
 def pmap(fn, tasks):
     if NPROC <= 1 or len(tasks) <= 1:
         return [fn(t) for t in tasks]
